@@ -45,7 +45,7 @@ META = {
     "rule": "case = one history or one schedule; non-trivial = history with >=2 registrations and >=1 dispatch reaching >=2 listeners, or schedule with >=1 preemption; distinct by op list / (scenario, switch trace)",
     "shards": {"quick": 8, "thorough": 16},
     "soft_s": {"quick": 50, "thorough": 900},
-    "require": ["dispatches", "listener_calls", "schedules", "preemptions", "line_events", "once_bodies_run", "retval_chains"],
+    "require": ["dispatches", "listener_calls", "schedules", "preemptions", "line_events", "once_bodies_run", "retval_chains", "propagation_chain_histories"],
     "assumptions": ["reference registry is correct"],
 }
 
@@ -348,6 +348,36 @@ def gen_ops_random(rng, n):
     return ops
 
 
+def gen_ops_chain(rng):
+    """Propagation chains: listeners on an instance are handed down through several
+    generations of ``_update`` (as a Connection branches from an Engine, an option-engine
+    from an engine, a sub-subclass from a subclass), then some are removed, then every
+    generation is dispatched."""
+    ops = [("instance", rng.choice(["A", "B", "C"]))]
+
+    def listens(tgt, n):
+        for _ in range(n):
+            ops.append(("listen", tgt, rng.choice(EVENTS[:2]), rng.random() < 0.25, rng.random() < 0.7,
+                        rng.random() < 0.1, rng.random() < 0.2))
+
+    listens("i1", rng.randint(1, 4))
+    depth = rng.randint(2, 4)
+    for d in range(depth):
+        # source = the newest instance (index d of d+1 instances, names i1..i9 sort in order)
+        ops.append(("update", rng.choice(["A", "B", "C"]), d, rng.random() < 0.7))
+        if rng.random() < 0.4:
+            listens(f"i{d + 2}", rng.randint(1, 2))
+    for rnd in range(2):
+        for _ in range(rng.randint(1, 3)):
+            ops.append(rng.choice([("remove", rng.randrange(8)), ("remove", rng.randrange(8)), ("contains", rng.randrange(8))]))
+        for i in range(depth + 1):
+            for ev in EVENTS[:2]:
+                ops.append(("dispatch", i, ev))
+        if rng.random() < 0.5:
+            ops.append(("dispatch_join", rng.randrange(60), rng.choice(EVENTS[:2])))
+    return ops
+
+
 REDUCED = [
     ("listen", "Base", "ev_one", False, False, False, False),
     ("listen", "A", "ev_one", True, False, False, False),
@@ -592,6 +622,14 @@ def run(ctx):
             break
         ops = [("instance", "A"), ("instance", "C")] + gen_ops_random(rng, rng.randint(5, 30))
         run_history(ctx, event, exc, ops, "random")
+    for k in range(ctx.pick({"quick": 300, "thorough": 8000})):
+        if k >= 20 and not ctx.budget_ok(0.55):
+            break
+        ops = gen_ops_chain(rng)
+        run_history(ctx, event, exc, ops, "chain")
+        ctx.count("propagation_chain_histories")
+        if k == 0:
+            ctx.sample({"chain_history": ops})
     for k in range(ctx.pick({"quick": 40, "thorough": 1500})):
         if k >= 3 and not ctx.budget_ok(0.6):
             break
